@@ -70,6 +70,10 @@ def _route(cin, zone="America/Chicago"):
     if pkey not in _st["preds"]:
         idx = pd.date_range(pd.Timestamp("%d-01-01" % cin["y"], tz=zone), pd.Timestamp("%d-12-31" % cin["y"], tz=zone), freq="D")     # local midnights
         data = em.DailyReportingData(pd.DataFrame({"temperature": 50.0 + (np.arange(len(idx)) % 30), "observed": 10.0}, index=idx), is_electricity_data=False)
+        # a decoy: ANOTHER model with other calendar maps is constructed between this model's construction and its use (the maps a
+        # model routes with are its own, whatever else was built in the process since)
+        em.DailyModel(model="legacy", settings={"weekday_weekend": {DAYS[i]: ("weekend" if i in (0, 1) else "weekday") for i in range(7)},
+                                                 "season": {MONTHS[i]: ("summer" if i < 4 else "winter" if i < 8 else "shoulder") for i in range(12)}})
         _st["preds"][pkey] = model.predict(data, ignore_disqualification=True)
         if len(_st["preds"]) > 40:
             _st["preds"].pop(next(iter(_st["preds"])))
